@@ -126,7 +126,9 @@ def check(an: Analysis) -> None:
     lo, hi = g.count_range(lambda n: n in sinks, g.entry, lambda n: n.kind == "exit-return", skip_edge=both(normal_only, not_finished))
     if (lo, hi) != (1, 1):
         ob.fail(enq, (sinks[0].ast if sinks else None), f"`{first}` is delivered {lo}..{hi} times on normal paths of enqueue (must be exactly once: lost or duplicated element)")
-    lo, hi = g.count_range(lambda n: n in extends, g.entry, lambda n: n.kind == "exit-return", skip_edge=both(normal_only, not_finished))
+    # (situation: further elements were given - with none, skipping the no-op extend is the same thing)
+    some_rest = scenario(g, lambda e: (0,) if is_name(e, rest) else NOVALUE)
+    lo, hi = g.count_range(lambda n: n in extends, g.entry, lambda n: n.kind == "exit-return", skip_edge=both(normal_only, not_finished, some_rest))
     if (lo, hi) != (1, 1):
         ob.fail(enq, (extends[0].ast if extends else None), f"`{rest}` are buffered {lo}..{hi} times on normal paths of enqueue (must be exactly once)")
     if sinks and extends:
